@@ -167,6 +167,63 @@ def nested_lattice_decks(seed, n):
     return decks
 
 
+def superfluous_lattice_option(chk, decks, thorough):
+    """A --lattice option that names a lattice cell whose FILL array is on the card (ranges of the same total size,
+    shifted or transposed): the deck says where the elements are, so the conversion either stays what it is or
+    the option is refused with a diagnostic - the declared ranges are never replaced by the option's."""
+    from .. import conv, deckrun
+    rng = random.Random(chk.seed + 606)
+    jobs, nd = [], {}
+    for d in decks:
+        d = adeck.normalise(d)
+        lat = [c for c in d['cells'] if c['lat'] and c['lranges'] and not c.get('latopt')]
+        if len(lat) != 1 or any(c.get('latopt') for c in d['cells']):
+            continue
+        c = lat[0]
+        sizes = [b - a + 1 for a, b in c['lranges']]
+        if len(sizes) >= 2 and sizes[0] != sizes[1] and rng.random() < 0.5:
+            rngs = [c['lranges'][1], c['lranges'][0]] + list(c['lranges'][2:])         # transposed
+        else:
+            rngs = [[a + 1, b + 1] for a, b in c['lranges']]                            # shifted
+        adeck.simple_materials(d)
+        d['pts'] = adeck.grid_points(rng, 100, -11, 11)
+        tid = len(jobs) + 1
+        nd[tid] = d
+        jobs.append({'tid': tid, 'deck': d, 'opts': ['--lattice', '%d,%s' % (c['n'], ','.join('%d:%d' % (a, b) for a, b in rngs))]})
+        if len(jobs) >= (600 if thorough else 80):
+            break
+    if not jobs:
+        return
+    records = conv.run_batch(deckrun.run_deck, jobs, chunksize=8)
+    good, nrefused = [], 0
+    for r in records:
+        if 'machinery_error' in r:
+            chk.machinery(r['machinery_error'])
+        elif r['result'] != 'ok':
+            if r['err'] and r['err']['diag']:
+                nrefused += 1
+            else:
+                chk.violation({'clause': 'crash', 'errtype': r['err']['type'] if r['err'] else None, 'where': r['err']['where'] if r['err'] else None,
+                               'features': 'superfluous_lattice_option', 'moved': False},
+                              {'text': r['text'], 'opts': r['opts'], 'error': r['err'], 'deck': nd[r['tid']], 'clauses': 'owner'})
+        else:
+            good.append(r)
+    try:
+        verdicts = deckrun.validate(chk, good, nd, 'owner') if good else {}
+    except tlc.TLCFailure as exc:
+        chk.machinery(str(exc))
+        verdicts = {}
+    byid = {r['tid']: r for r in good}
+    for tid, v in sorted(verdicts.items()):
+        for kind, k in v['bad']:
+            if kind in KINDS:
+                chk.violation({'clause': kind, 'errtype': None, 'where': None, 'features': 'superfluous_lattice_option', 'moved': False},
+                              {'text': byid[tid]['text'], 'opts': byid[tid]['opts'], 'deck': nd[tid], 'clauses': 'owner',
+                               'point2': nd[tid]['pts'][k - 1] if k else None})
+    chk.cov['traces_validated_against_impl'] += len(verdicts)
+    chk.extra['superfluous_lattice_option'] = {'run': len(jobs), 'refused_with_diagnostic': nrefused, 'converted': len(good)}
+
+
 def main(prop='C06', module='GenLat'):
     from .. import replay
     replay.maybe_replay(prop)
@@ -182,13 +239,24 @@ def main(prop='C06', module='GenLat'):
     if not decks:
         chk.machinery('no deck generated')
         return chk.finish()
+    # every fourth deck is followed by its twin with all lengths doubled: the same plane normals, another pitch
+    # (converted by the same worker process right after it)
+    twinned = []
+    for i, d in enumerate(decks):
+        twinned.append(d)
+        if i % 4 == 0:
+            t = adeck.scaled(adeck.normalise(d), 2)
+            if t is not None:
+                twinned.append(t)
+    chk.extra['scaled_twin_decks'] = len(twinned) - len(decks)
+    decks = twinned
     if module == 'GenLat':
         decks = decks + nested_lattice_decks(chk.seed + 66, 300 if thorough else 30)
         chk.extra['nested_lattice_decks'] = 300 if thorough else 30
     recs, verdicts, nd, meta = common_univ.run(
         chk, decks, 'owner,compo', chk.seed,
         lambda d, r: [adeck.lattice_opts(d) + [f for f in common_univ.FLAGS if r.random() < 0.3]],
-        npts=130, decorate=lambda d, r: adeck.simple_materials(d), lo=-11, hi=11, moved_every=3)
+        npts=130, decorate=lambda d, r: adeck.simple_materials(d), lo=-15, hi=15, moved_every=3)
     chk.cov['traces_validated_against_impl'] = len(verdicts)
     chk.cov['evaluations'] = len(verdicts)
     nt = 0
@@ -209,6 +277,7 @@ def main(prop='C06', module='GenLat'):
             chk.violation(sig, {'text': rec['text'], 'opts': meta[tid]['opts'], 'error': err, 'deck': deck,
                                 'clauses': 'owner,compo', 'point2': deck['pts'][k - 1] if k else None})
     chk.cov['distinct_nontrivial'] = nt
+    superfluous_lattice_option(chk, decks, thorough)
     if module == 'GenHex':
         core.lap('final-file validation')
         regular_hexagons(chk, decks, thorough)
